@@ -234,6 +234,52 @@ SumProductLaw ==
                                         SubSeq(t, k + 1, Len(s))))))
       /\ HasErr(s) => SumProduct(s, t) = ErrSet(s)
 
+\* The pool counts numbers in a unit; what the unit is does not matter: every
+\* function is homogeneous.  Measuring the numeric cells in a unit m times
+\* as large multiplies SUM, AVERAGE, MIN and MAX by m (m > 0), leaves COUNT
+\* alone and multiplies SUMPRODUCT by the product of the units of its two
+\* ranges.  TLC checks it for the small units its 32-bit integers can hold;
+\* the harness relies on it to drive the code with the same ranges measured
+\* in large units (10^10, 2^31, ...: numbers of every magnitude a double holds).
+Units == {1, 2, 3}
+Scaled(q, m) == [i \in DOMAIN q |-> IF IsNum(q[i]) THEN Num(m * q[i][2]) ELSE q[i]]
+RScale(x, m) == IF IsErr(x) THEN x ELSE R(m * x[2], x[3])
+Homogeneous ==
+  \A m \in Units :
+     LET t == Scaled(s, m) IN
+     /\ \A fn \in Fns \ {"COUNT"} : Agg(fn, t) = {RScale(x, m) : x \in Agg(fn, s)}
+     /\ Agg("COUNT", t) = Agg("COUNT", s)
+     /\ \A m2 \in Units :
+           SumProduct(t, Scaled(Rot(s), m2))
+             = {RScale(x, m * m2) : x \in SumProduct(s, Rot(s))}
+
+\* Totals of subtotals.  A cell that holds a formula is, for a range it lies
+\* in, a cell with the formula's result: a number (a numeric cell like any
+\* other) or an error value.  Cut the range in two blocks a, b and put the
+\* aggregates of the blocks in two cells; then over those two cells
+\*   SUM of the SUMs is the SUM of the whole range (errors included: the
+\*   first block's error comes first), SUM of the COUNTs is the COUNT, COUNT
+\*   of the SUMs is 2, MAX of the MAXs / MIN of the MINs is the MAX / MIN
+\*   when both blocks hold a number (else the 0 of the empty block takes
+\*   part), and SUMPRODUCT(AVERAGEs, COUNTs) is the SUM.
+\* By SumProductLaw a subtotal may as well be written SUMPRODUCT(block, ones).
+AsCell(x)  == IF IsErr(x) THEN x ELSE Num((x[2] * Scale) \div x[3])
+InUnits(x) == IsErr(x) \/ (x[2] * Scale) % x[3] = 0    \* AsCell(x) is exact
+TwoLevel ==
+  \A k \in Cuts(Len(s)) :
+     LET a == SubSeq(s, 1, k)  b == SubSeq(s, k + 1, Len(s))
+         sub(fn) == <<AsCell(The(Agg(fn, a))), AsCell(The(Agg(fn, b)))>>
+     IN  /\ Same(The(Agg("SUM", sub("SUM"))), The(Agg("SUM", s)))
+         /\ ~HasErr(s) =>
+              /\ REq(The(Agg("SUM", sub("COUNT"))), The(Agg("COUNT", s)))
+              /\ Agg("COUNT", sub("SUM")) = {R(2, 1)}
+              /\ (CountN(a, FALSE) > 0 /\ CountN(b, FALSE) > 0) =>
+                   /\ Agg("MAX", sub("MAX")) = Agg("MAX", s)
+                   /\ Agg("MIN", sub("MIN")) = Agg("MIN", s)
+                   /\ (InUnits(The(Agg("AVERAGE", a))) /\ InUnits(The(Agg("AVERAGE", b)))) =>
+                        REq(The(SumProduct(sub("AVERAGE"), sub("COUNT"))),
+                            The(Agg("SUM", s)))
+
 --------------------------------------------------------------------------
 (* test-vector export: one JSON line per visited state *)
 Export ==
